@@ -79,6 +79,14 @@ Proof.
   repeat split; auto. apply (pending_is_current_epoch _ _ m (run_inv l)); auto.
 Qed.
 
+Theorem stored_with_epoch_run l c seq m d :
+  alive (sc_st (scalls (run l) c)) = true ->
+  sbox (step (run l) (SessReq c seq (RSend m))) d <> sbox (run l) d ->
+  seq = epoch_of (run l) c /\
+  mb_recv (sbox (step (run l) (SessReq c seq (RSend m))) d) = Some m /\
+  mb_gep (sbox (step (run l) (SessReq c seq (RSend m))) d) = seq.
+Proof. intros Ha Hd. destruct (send_routing_run l c seq m d Ha Hd) as (_ & _ & X & _ & _ & _ & _ & Y & Z). auto. Qed.
+
 (* ---- C24 ---- *)
 Theorem listener_set_run l c :
   lc_st (lcalls (run l) c) = Running -> lwoken (run l) c = false ->
